@@ -12,7 +12,7 @@ from collections import Counter, defaultdict
 import networkx as nx
 
 from ..common import Result, sut, digest, tight_stack_call
-from ..graphs import build_clean_network, snapshot, same_snapshot
+from ..graphs import build_clean_network, snapshot, same_snapshot, CanonicalEdgesMonitoredGraph
 
 ID = "C13"
 RULE = ("annotated simple networks: (a) clean motif networks from the harness builder with 1..3 clique/cycle topologies, 2..4 joint-degree "
@@ -89,7 +89,8 @@ def scramble(rng, G):
     vertex labels are labels, not positions"""
     relabel = rng.random() < 0.5
     f = (lambda v: 3 * v + 5) if relabel else (lambda v: v)
-    H = nx.Graph()
+    # (a quarter of them on a Graph subclass that reports every edge smaller end point first, whichever end it was asked about)
+    H = CanonicalEdgesMonitoredGraph() if rng.random() < 0.25 else nx.Graph()
     ns = list(G.nodes(data=True))
     rng.shuffle(ns)
     for v, d in ns:
